@@ -34,6 +34,7 @@ def run(P, R, L):
     K.grd11_reopen_offset(P, R, L)
     R.clause("GRD-12", "a WAL / manifest is re-opened for appending only if the reader consumed it completely (no append after a torn tail)")
     K.grd12_reuse_only_complete_logs(P, R, L)
+    K.grd12_cursor_counts_complete_reads(P, R, L)
     # everywhere else a log is created fresh (truncating): a new WAL / a new manifest never inherits stale bytes
     allowed = {"db::DB::recover_wal_records", "versioning::version_set::VersionSet::maybe_reuse_manifest"}
     n = 0
